@@ -1,7 +1,7 @@
 #!/usr/bin/env python3
 """C11 Generated C is well defined: compiles as GNU C89 and later with gcc and clang, sanitizer builds report
 nothing on non-trapping in-bounds inputs, all compilers / optimisation levels return the reference's results."""
-import sys, os, itertools
+import time, sys, os, itertools
 sys.path.insert(0, os.path.dirname(os.path.abspath(__file__)))
 from numeric import *
 import c01, c02, c03, c04, c05, c06, c10
@@ -102,15 +102,27 @@ def main(tier):
         for pos in ('export', 'import-module', 'import-field', 'name-section', 'import-global', 'debug-name'):
             njobs.append((nm, pos))
 
+    # global deadline: batches that have not been started by then are reported as not covered (exhaustive: false), never as failures.
+    # The jobs are ordered cell-major inside each corpus entry, so what is cut off are the last corpus entries in all their cells.
+    deadline = chk.t0 + (300 if tier == 'quick' else 1500)
+
     def work(job):
         label, b, cc, flags, kw = job
+        if time.time() > deadline:
+            return {'done': False, 'stage': 'deadline'}
         return run_batch(b, w2c2=w2c2, **kw)
     results = pmap(work, jobs)
+    not_started = 0
     percell = {}
     nfuncs = set()
     for (label, b, cc, flags, kw), res in zip(jobs, results):
         cell = cc + ' ' + ' '.join(f for f in flags if not f.startswith('-fno'))
         d = percell.setdefault(cell, {'batches': 0, 'programs': 0, 'evaluations': 0, 'ok': 0})
+        if res.get('stage') == 'deadline':
+            not_started += 1
+            d['not_started_before_the_deadline'] = d.get('not_started_before_the_deadline', 0) + 1
+            chk.cov['exhaustive'] = False
+            continue
         d['batches'] += 1
         if res.get('stage') == 'run' and not res.get('done') and ('runtime error:' in (res.get('stderr') or '') or 'AddressSanitizer' in (res.get('stderr') or '')):
             line = [l for l in res['stderr'].splitlines() if 'runtime error:' in l or 'AddressSanitizer' in l][0]
@@ -158,6 +170,7 @@ def main(tier):
                           'name %r in %s: generated C does not compile: %s' % (nm[:20], pos, info[0][1][:200]))
     chk.add(evaluations=sum(d['evaluations'] for d in percell.values()) + ncomp)
     chk.cov['cells'] = percell
+    chk.cov['batches_not_started_before_the_deadline'] = not_started
     chk.cov['name_stress_modules_compiled'] = ncomp
     chk.cov['rule'] = ('corpus = numeric level-1 and a systematic subset of level-2 programs, all valid control-flow bodies up to N (full/ctl/typed alphabets), call, memory (flavours, bulk operations with overlapping copies, store/store/load sequences in one function) and '
                        'instantiation shapes; every corpus batch is compiled in every cell of {gcc, clang} x {-O0..-O3} x {-std=gnu89, default} x {plain, '
